@@ -211,8 +211,8 @@ static void fam_k7(int thorough) {	// hooks H1/H2: normalisation and window slid
 }
 static void fam_bound(int thorough) {	// out_size = *_bound(n) never fails for lack of space
 	set_lzma(&OL[0], 4096, 3, 0, 2, LZMA_MODE_FAST, 8, LZMA_MF_HC3, 0); lzma_filter f[2] = { { LZMA_FILTER_LZMA2, &OL[0] }, { LZMA_VLI_UNKNOWN, NULL } };
-	size_t maxn = thorough ? 3 * 65536 + 16 : 2048;
-	for (size_t n = 0; n <= (size_t)4 * 65536 + 8; n++) { int inset = n <= maxn || (n % 65536 <= 8) || (n % 65536 >= 65528); if (!inset) continue; if ((unit++ % nsh) != sh) continue; if (h_expired()) return;
+	size_t maxn = thorough ? 16384 : 2048;	// every length up to maxn; around every multiple of the 64 KiB LZMA2 chunk size +-8 (thorough +-64); thorough: every 61st length in between
+	for (size_t n = 0; n <= (size_t)4 * 65536 + 64; n++) { size_t w = thorough ? 64 : 8; int inset = n <= maxn || (n % 65536 <= w) || (n % 65536 >= 65536 - w) || (thorough && n % 61 == 0); if (!inset) continue; if ((unit++ % nsh) != sh) continue; if (h_expired()) return;
 		for (int content = 0; content < 3; content++) { if (content == 0) in_lcg(n, 99); else if (content == 1) { memset(inb, 0, n); inlen = n; } else in_periodic(2, 1, n, -1);
 			H_CASE("c02 bound n=%zu content=%d", n, content); n_rt++;
 			size_t b1 = lzma_stream_buffer_bound(n), op = 0; lzma_ret r = lzma_stream_buffer_encode(f, LZMA_CHECK_CRC64, NULL, inb, n, comp, &op, b1);
